@@ -24,6 +24,7 @@ EXPLANATION = (
     "over write sites; Decimal arithmetic itself is not claimed."
     " C01.3 also: a fill reaches the account as one all-or-nothing update (a second update for the fees could be refused after the first was applied)."
     " The delta applied is exactly fill + fees (only pruned between its computation and the update)."
+    " The delta must be a fresh '<fill> + <fees>' value (a reused object can carry the amounts of a refused fill)."
 )
 TRUSTED = ["CPython ast parser", "mypy callee/receiver resolution", "sa.cfg statement CFG", "sa.summaries"]
 
